@@ -201,7 +201,7 @@ func init() {
 		ID: "C03",
 		Harnesses: []HarnessSpec{
 			{Name: "VerifH_serveHTTP_params", Covers: []string{"query-param", "body-star", "body-field", "nested-bound"}},
-			{Name: "VerifH_params", Covers: []string{"string", "json-name", "bytes", "bytes-rejected", "enum", "enum-rejected", "repeated", "nested", "through-list", "through-map", "unknown-key", "int32", "int32-rejected", "bool", "bool-rejected", "int64", "uint32", "uint32-rejected", "int-out-of-range-rejected", "int-at-range-limit"}},
+			{Name: "VerifH_params", Covers: []string{"string", "json-name", "bytes", "bytes-rejected", "enum", "enum-rejected", "repeated", "nested", "through-list", "through-map", "unknown-key", "int32", "int32-rejected", "bool", "bool-rejected", "int64", "uint32", "uint32-rejected", "int-out-of-range-rejected", "int-at-range-limit", "float", "float-rejected"}},
 			{Name: "VerifH_http_recv_stream", Covers: []string{"clean-eof"}},
 		},
 		Bounds: map[string]string{
@@ -469,7 +469,7 @@ func init() {
 	addProp(&PropSpec{
 		ID: "C10",
 		Harnesses: []HarnessSpec{
-			{Name: "VerifH_proxy", Concurrent: true, Covers: []string{"U", "CS", "SS", "BD", "succeeds", "fails-before", "fails-during", "fails-after", "replies-after-end-of-stream", "returns-without-reading-all", "client-keeps-stream-open", "multi-valued-metadata"}},
+			{Name: "VerifH_proxy", Concurrent: true, MaxPathsT: 4000000, Covers: []string{"U", "CS", "SS", "BD", "succeeds", "fails-before", "fails-during", "fails-after", "replies-after-end-of-stream", "returns-without-reading-all", "client-keeps-stream-open", "multi-valued-metadata"}},
 		},
 		Bounds: map[string]string{
 			"quick":    "one gRPC call through the REAL RegisterConn + createConnHandler + serveGRPC for each streaming shape (unary, client, server, bidirectional); backend scripts: 0..2 replies (exactly 1 / 0 for single-reply shapes), final status OK / NotFound / Canceled / Unavailable, failing before reading, right after the first reply or at the end, reading the request stream first / last / never; client: 0..2 request messages, ending its stream or keeping it open until the call ends, one metadata value; goroutine model with context bound 1 (the proxy's pump goroutine, the backend handler goroutine and the serving goroutine; scheduling points at every channel / WaitGroup / pool / atomic operation and every network read / write of the fakes)",
@@ -539,4 +539,14 @@ func init() {
 	replaceOutside("C16", "kind '*' of one method vs a specific verb of another on the same path (unspecified)", "a kind-* binding added on a path where another method already holds one specific verb (the reverse order is asserted to be a conflict)")
 
 	ext("C16", "panic-freedom at the lexer's 64-token cap (shared with C09)", HarnessSpec{Name: "VerifH_match_tokencap", Covers: []string{"rejected", "dispatched"}})
+
+	ext("C09", "a mux with nothing registered yet (every entry kind, DropConn of an unknown connection); WebSocket upgrade on a connection that cannot be hijacked",
+		HarnessSpec{Name: "VerifH_entry_empty", Covers: []string{"grpc", "grpc-web", "http", "websocket"}},
+		HarnessSpec{Name: "VerifH_ws_raw", Covers: []string{"not-hijackable"}},
+		HarnessSpec{Name: "VerifH_serveHTTP_status", Covers: []string{"empty-reply", "stats"}})
+	ext("C11", "a mux with nothing registered yet", HarnessSpec{Name: "VerifH_entry_empty", Covers: []string{"grpc", "http"}})
+	replaceOutside("C03", "float / double, uint64 / fixed64 and well-known-type text conversion", "float / double text conversion on SYMBOLIC text (decided on a menu of concrete texts around the float32 / float64 ranges, converted by the host's encoding/json), uint64 / fixed64 and well-known-type text conversion (protojson's well-known types are not encoded) - N/A part")
+
+	ext("C03", "HttpBody request bodies: every chunk handed to the handler carries the REQUEST's content type (not the type the reply is negotiated to)",
+		HarnessSpec{Name: "VerifH_http_recv_body", Covers: []string{"upload", "multi-chunk"}})
 }
